@@ -339,6 +339,7 @@ class DriverReal(Driver17):
             finally:
                 mido.open_output = saved
         self.dev.calls = []          # the callbacks of the scenario log themselves here
+        self.ndev, self.devs = 1, [self.dev]   # one real device (sched_impl's multi-device mode is not used here)
         self.tl = iso.Timeline(cfg.get("tempo", 120), output_device=self.dev,
                                clock_source=iso.DummyClock(ticks_per_beat=sc["tpb"]),
                                ignore_exceptions=bool(cfg.get("ignore")))
